@@ -177,6 +177,8 @@ type streamGRPC struct {
 	ctx             context.Context
 	done            <-chan struct{} // ctx.Done()
 	wg              sync.WaitGroup
+	mu              sync.Mutex // guards closed, orders wg.Add before the final wg.Wait
+	closed          bool       // the handler returned: no stream method may start
 	handler         *handler
 	codec           Codec      // both read and write
 	comp            Compressor // both read and write
@@ -188,6 +190,19 @@ type streamGRPC struct {
 	contentType     string
 	messageEncoding string
 	sentHeader      bool
+}
+
+// enter registers a call of a stream method with the handler-return fence. It
+// fails once the fence has been raised, so wg.Add never runs concurrently with
+// the fence's wg.Wait (e.g. from a goroutine that outlives the handler).
+func (s *streamGRPC) enter() error {
+	s.mu.Lock()
+	defer s.mu.Unlock()
+	if s.closed {
+		return status.Error(codes.Canceled, "stream used after the handler returned")
+	}
+	s.wg.Add(1)
+	return nil
 }
 
 func (s *streamGRPC) isDone() error {
@@ -207,7 +222,9 @@ func (s *streamGRPC) SetHeader(md metadata.MD) error {
 	return nil
 }
 func (s *streamGRPC) SendHeader(md metadata.MD) error {
-	s.wg.Add(1)
+	if err := s.enter(); err != nil {
+		return err
+	}
 	defer s.wg.Done()
 
 	if err := s.isDone(); err != nil {
@@ -266,7 +283,9 @@ func (s *streamGRPC) compress(dst *bytes.Buffer, b []byte) error {
 }
 
 func (s *streamGRPC) SendMsg(m interface{}) error {
-	s.wg.Add(1)
+	if err := s.enter(); err != nil {
+		return err
+	}
 	defer s.wg.Done()
 
 	if err := s.isDone(); err != nil {
@@ -355,7 +374,9 @@ func (s *streamGRPC) decompress(dst *bytes.Buffer, b []byte) error {
 }
 
 func (s *streamGRPC) RecvMsg(m interface{}) error {
-	s.wg.Add(1)
+	if err := s.enter(); err != nil {
+		return err
+	}
 	defer s.wg.Done()
 
 	if err := s.isDone(); err != nil {
@@ -561,6 +582,9 @@ func (m *Mux) serveGRPC(w http.ResponseWriter, r *http.Request) {
 	// Sync handler return to stream methods.
 	defer func() {
 		cancel()
+		stream.mu.Lock()
+		stream.closed = true
+		stream.mu.Unlock()
 		stream.wg.Wait()
 	}()
 
